@@ -1,9 +1,867 @@
-// C15: not built yet (stub so that main.rs is already wired; replace the body, keep the two signatures).
-use crate::util::Sink;
+// C15: clustering and vertexing conserve inputs and honour size and distance rules.
+//
+// Case lines (the model runner ocaml/run_c15.ml reads the same lines):
+//   c15    <classes> <pts> <bins> <near>     real cluster_spacepoints vs model replay with the oracle tables
+//   c15lc  <classes> <pts> <near>            real largest_cluster (hook) vs model
+//   c15v   <classes> <pts> <flags> <sorted> <zclose> <rbits>   real find_vertices vs bookkeeping model
+//   c15bc  <classes> <pts> <sorted> <zclose> real beamline_clusters (hook) vs model
+//   relc15 <classes> <pts>                   implementation-only oracle: conservation, size >= 13, 3 cm connectivity,
+//                                            sanity of the oracle tables (NoDup bins, symmetric near, class consistency)
+//   relc15v <classes> <pts>                  implementation-only oracle: track partition, primary has >= 2 tracks
+// <classes>: `;`-separated `==`-classes (derived PartialEq) of the input objects, each as `.`-separated
+//            16-hex-digit bit patterns (points: r phi z; tracks: x0 y0 z0 r phi0 h t_inner t_outer); `-` if none
+// <pts>:     `,`-separated class ids of the input in order
+// <bins>:    per class the value of get_bins (hook verif_hough_bins(p, 250, 230)), run-length encoded
+//            `theta.rho_first.count`
+// <near>:    per class the ids j with distance(i, j) <= 3 cm (public SpacePoint::distance)
+use crate::util::*;
+use alpha_g_physics::reconstruction::{self as rec, cluster_spacepoints, find_vertices, Track};
+use alpha_g_physics::SpacePoint;
+use std::collections::HashMap;
+use std::f64::consts::PI;
+use uom::si::angle::radian;
+use uom::si::f64::{Angle, Length};
+use uom::si::length::{centimeter, meter};
 
-pub fn run(_tier: &str, _seed: u64, _s: &mut Sink) {}
+const R_IN: f64 = 0.1092; // INNER_CATHODE_RADIUS
+const R_OUT: f64 = 0.182; // ANODE_WIRES_RADIUS
+const Z_HALF: f64 = 1.152;
+
+type P3 = [u64; 3];
+
+fn sp(b: P3) -> SpacePoint {
+    SpacePoint {
+        r: Length::new::<meter>(f64::from_bits(b[0])),
+        phi: Angle::new::<radian>(f64::from_bits(b[1])),
+        z: Length::new::<meter>(f64::from_bits(b[2])),
+    }
+}
+fn sp_f(r: f64, phi: f64, z: f64) -> SpacePoint {
+    sp([r.to_bits(), phi.to_bits(), z.to_bits()])
+}
+fn bits(p: SpacePoint) -> P3 {
+    [
+        p.r.get::<meter>().to_bits(),
+        p.phi.get::<radian>().to_bits(),
+        p.z.get::<meter>().to_bits(),
+    ]
+}
+fn max_distance() -> Length {
+    Length::new::<centimeter>(3.0)
+}
+fn near(a: SpacePoint, b: SpacePoint) -> bool {
+    a.distance(b) <= max_distance()
+}
+
+fn join<T: ToString>(v: &[T], sep: &str) -> String {
+    if v.is_empty() {
+        "-".to_string()
+    } else {
+        v.iter().map(|x| x.to_string()).collect::<Vec<_>>().join(sep)
+    }
+}
+fn split<'a>(s: &'a str, c: char) -> Vec<&'a str> {
+    if s == "-" {
+        Vec::new()
+    } else {
+        s.split(c).collect()
+    }
+}
+
+/// `==`-classes of the points (first representative), class id of every input point
+struct Classes {
+    reps: Vec<SpacePoint>,
+    ids: Vec<usize>,
+    by_bits: HashMap<P3, usize>,
+}
+fn classify(points: &[SpacePoint]) -> Classes {
+    let mut reps: Vec<SpacePoint> = Vec::new();
+    let mut ids = Vec::with_capacity(points.len());
+    let mut by_bits: HashMap<P3, usize> = HashMap::new();
+    for &p in points {
+        let id = match by_bits.get(&bits(p)) {
+            Some(&i) => i,
+            None => {
+                let i = match reps.iter().position(|&q| q == p) {
+                    Some(i) => i,
+                    None => {
+                        reps.push(p);
+                        reps.len() - 1
+                    }
+                };
+                by_bits.insert(bits(p), i);
+                i
+            }
+        };
+        ids.push(id);
+    }
+    Classes { reps, ids, by_bits }
+}
+fn classes_str(reps: &[SpacePoint]) -> String {
+    let v: Vec<String> = reps
+        .iter()
+        .map(|&p| {
+            let b = bits(p);
+            format!("{:016x}.{:016x}.{:016x}", b[0], b[1], b[2])
+        })
+        .collect();
+    join(&v, ";")
+}
+fn parse_points(classes: &str, pts: &str) -> Option<Vec<SpacePoint>> {
+    let mut reps = Vec::new();
+    for c in split(classes, ';') {
+        let f: Vec<&str> = c.split('.').collect();
+        if f.len() != 3 {
+            return None;
+        }
+        let mut b = [0u64; 3];
+        for k in 0..3 {
+            b[k] = u64::from_str_radix(f[k], 16).ok()?;
+        }
+        reps.push(sp(b));
+    }
+    let mut out = Vec::new();
+    for t in split(pts, ',') {
+        out.push(*reps.get(t.parse::<usize>().ok()?)?);
+    }
+    Some(out)
+}
+
+fn hough_bins(p: SpacePoint) -> Vec<(u32, u32)> {
+    rec::verif_hough_bins(p, 250, 230)
+}
+fn rle_bins(b: &[(u32, u32)]) -> String {
+    let mut out: Vec<String> = Vec::new();
+    let mut i = 0;
+    while i < b.len() {
+        let (t, lo) = b[i];
+        let mut n = 1usize;
+        while i + n < b.len() && b[i + n].0 == t && b[i + n].1 as u64 == lo as u64 + n as u64 {
+            n += 1;
+        }
+        out.push(format!("{t}.{lo}.{n}"));
+        i += n;
+    }
+    join(&out, ",")
+}
+fn near_rows(reps: &[SpacePoint]) -> Vec<Vec<usize>> {
+    reps.iter()
+        .map(|&a| (0..reps.len()).filter(|&j| near(a, reps[j])).collect())
+        .collect()
+}
+fn near_str(rows: &[Vec<usize>]) -> String {
+    let v: Vec<String> = rows.iter().map(|r| join(r, ",")).collect();
+    join(&v, ";")
+}
+fn ids_of(c: &Classes, pts: &[SpacePoint]) -> String {
+    let v: Vec<String> = pts
+        .iter()
+        .map(|&p| match c.by_bits.get(&bits(p)) {
+            Some(i) => i.to_string(),
+            None => "?".to_string(),
+        })
+        .collect();
+    join(&v, ",")
+}
+
+// ---------------------------------------------------------------- implementation observations
+fn observe_cluster(points: &[SpacePoint]) -> String {
+    let c = classify(points);
+    let v = points.to_vec();
+    match catch(move || cluster_spacepoints(v)) {
+        None => "panic".to_string(),
+        Some(res) => {
+            let cl: Vec<String> = res
+                .clusters
+                .iter()
+                .map(|k| ids_of(&c, &k.iter().copied().collect::<Vec<_>>()))
+                .collect();
+            format!("ok {} | {}", join(&cl, "/"), ids_of(&c, &res.remainder))
+        }
+    }
+}
+fn observe_largest(points: &[SpacePoint]) -> String {
+    let c = classify(points);
+    let v = points.to_vec();
+    match catch(move || rec::verif_largest_cluster(v, max_distance())) {
+        None => "panic".to_string(),
+        Some(res) => format!("ok {}", ids_of(&c, &res)),
+    }
+}
+
+fn find(u: &mut Vec<usize>, mut x: usize) -> usize {
+    while u[x] != x {
+        u[x] = u[u[x]];
+        x = u[x];
+    }
+    x
+}
+/// property oracle on the implementation alone
+fn rel_cluster(points: &[SpacePoint]) -> String {
+    let c = classify(points);
+    // oracle tables are sane: bins pairwise distinct, near symmetric and reflexive, `==`-equal points
+    // have equal tables, `==` is reflexive on the case (no NaN)
+    for &p in points {
+        if p != p {
+            return "fails eq-not-reflexive".to_string();
+        }
+    }
+    let tabs: Vec<Vec<(u32, u32)>> = c.reps.iter().map(|&p| hough_bins(p)).collect();
+    for (i, t) in tabs.iter().enumerate() {
+        let mut s = t.clone();
+        s.sort();
+        s.dedup();
+        if s.len() != t.len() {
+            return format!("fails duplicate-bin class {i}");
+        }
+    }
+    let rows = near_rows(&c.reps);
+    for i in 0..rows.len() {
+        if !rows[i].contains(&i) {
+            return format!("fails near-not-reflexive {i}");
+        }
+        for &j in &rows[i] {
+            if !rows[j].contains(&i) {
+                return format!("fails near-not-symmetric {i} {j}");
+            }
+        }
+    }
+    for (k, &p) in points.iter().enumerate() {
+        let rep = c.reps[c.ids[k]];
+        if bits(p) != bits(rep) {
+            if hough_bins(p) != tabs[c.ids[k]] {
+                return format!("fails class-bins {k}");
+            }
+            for &q in &c.reps {
+                if near(p, q) != near(rep, q) || near(q, p) != near(q, rep) {
+                    return format!("fails class-near {k}");
+                }
+            }
+        }
+    }
+    let v = points.to_vec();
+    let res = match catch(move || cluster_spacepoints(v)) {
+        None => return "fails panic".to_string(),
+        Some(r) => r,
+    };
+    // conservation: input = clusters (+) remainder as multisets of `==`-classes
+    let mut count = vec![0i64; c.reps.len()];
+    for &i in &c.ids {
+        count[i] += 1;
+    }
+    let mut out_pts: Vec<SpacePoint> = res.remainder.clone();
+    for k in &res.clusters {
+        out_pts.extend(k.iter().copied());
+    }
+    for p in out_pts {
+        match c.reps.iter().position(|&q| q == p) {
+            Some(i) => count[i] -= 1,
+            None => return "fails foreign-point".to_string(),
+        }
+    }
+    if let Some(i) = count.iter().position(|&x| x != 0) {
+        return format!("fails conservation class {i} balance {}", count[i]);
+    }
+    for (n, k) in res.clusters.iter().enumerate() {
+        let pts: Vec<SpacePoint> = k.iter().copied().collect();
+        if pts.len() < 13 {
+            return format!("fails size cluster {n} has {}", pts.len());
+        }
+        // single linkage at 3 cm: one component
+        let mut u: Vec<usize> = (0..pts.len()).collect();
+        for a in 0..pts.len() {
+            for b in a + 1..pts.len() {
+                if near(pts[a], pts[b]) {
+                    let (ra, rb) = (find(&mut u, a), find(&mut u, b));
+                    u[ra] = rb;
+                }
+            }
+        }
+        let r0 = find(&mut u, 0);
+        for a in 1..pts.len() {
+            if find(&mut u, a) != r0 {
+                return format!("fails connectivity cluster {n}");
+            }
+        }
+    }
+    "holds".to_string()
+}
+
+
+// ---------------------------------------------------------------- vertexing
+type T8 = [u64; 8];
+fn trk(b: T8) -> Track {
+    let f = |k: usize| f64::from_bits(b[k]);
+    Track::verif_from_params([f(0), f(1), f(2), f(3), f(4), f(5)], f(6), f(7))
+}
+fn tbits(t: &Track) -> T8 {
+    let p = t.verif_params();
+    [
+        p[0].to_bits(),
+        p[1].to_bits(),
+        p[2].to_bits(),
+        p[3].to_bits(),
+        p[4].to_bits(),
+        p[5].to_bits(),
+        t.t_inner().to_bits(),
+        t.t_outer().to_bits(),
+    ]
+}
+struct TClasses {
+    reps: Vec<Track>,
+    ids: Vec<usize>,
+}
+fn tclassify(tracks: &[Track]) -> TClasses {
+    let mut reps: Vec<Track> = Vec::new();
+    let mut ids = Vec::new();
+    for t in tracks {
+        // `==`, or bit-identical (a track with a NaN parameter is not `==` to itself)
+        let i = match reps.iter().position(|q| q == t || tbits(q) == tbits(t)) {
+            Some(i) => i,
+            None => {
+                reps.push(*t);
+                reps.len() - 1
+            }
+        };
+        ids.push(i);
+    }
+    TClasses { reps, ids }
+}
+/// class id of a track of the output (`?` if it is `==` to no input track)
+fn tid(c: &TClasses, t: &Track) -> String {
+    match c.reps.iter().position(|q| q == t || tbits(q) == tbits(t)) {
+        Some(i) => i.to_string(),
+        None => "?".to_string(),
+    }
+}
+fn tclasses_str(reps: &[Track]) -> String {
+    let v: Vec<String> = reps
+        .iter()
+        .map(|t| tbits(t).iter().map(|x| format!("{x:016x}")).collect::<Vec<_>>().join("."))
+        .collect();
+    join(&v, ";")
+}
+fn parse_tracks(classes: &str, pts: &str) -> Option<Vec<Track>> {
+    let mut reps = Vec::new();
+    for c in split(classes, ';') {
+        let f: Vec<&str> = c.split('.').collect();
+        if f.len() != 8 {
+            return None;
+        }
+        let mut b = [0u64; 8];
+        for k in 0..8 {
+            b[k] = u64::from_str_radix(f[k], 16).ok()?;
+        }
+        reps.push(trk(b));
+    }
+    let mut out = Vec::new();
+    for t in split(pts, ',') {
+        out.push(*reps.get(t.parse::<usize>().ok()?)?);
+    }
+    Some(out)
+}
+// the two filters of find_vertices (vertex_fitting.rs:33-36) with the parameters of reconstruction.rs:334-337
+fn long_enough(t: &Track) -> bool {
+    rec::verif_helix_arc_length(t.verif_params(), t.t_inner(), t.t_outer()) > Length::new::<centimeter>(3.5)
+}
+fn close_beam(t: &Track) -> bool {
+    let p = t.verif_params();
+    let (x0, y0, r) = (Length::new::<meter>(p[0]), Length::new::<meter>(p[1]), Length::new::<meter>(p[3]));
+    (r - x0.hypot(y0)).abs() < Length::new::<centimeter>(5.3)
+}
+fn beam_z(t: &Track) -> Length {
+    rec::verif_helix_closest_to_beamline(t.verif_params()).z
+}
+fn cluster_distance() -> Length {
+    Length::new::<centimeter>(3.4)
+}
+
+fn observe_vertex(tracks: &[Track]) -> String {
+    let c = tclassify(tracks);
+    let v = tracks.to_vec();
+    match catch(move || find_vertices(v)) {
+        None => "panic".to_string(),
+        Some(res) => {
+            let prim = match &res.primary {
+                None => "none".to_string(),
+                Some(vi) => join(&vi.tracks.iter().map(|(t, _)| tid(&c, t)).collect::<Vec<_>>(), ","),
+            };
+            let rem: Vec<String> = res.remainder.iter().map(|t| tid(&c, t)).collect();
+            format!("ok {} | {}", prim, join(&rem, ","))
+        }
+    }
+}
+fn vertex_case_line(tracks: &[Track]) -> String {
+    let c = tclassify(tracks);
+    let flags: Vec<String> = c
+        .reps
+        .iter()
+        .map(|t| format!("{}{}", long_enough(t) as u8, close_beam(t) as u8))
+        .collect();
+    let filtered: Vec<Track> = tracks.iter().filter(|t| long_enough(t) && close_beam(t)).copied().collect();
+    let sorted = match catch(move || rec::verif_beamline_clusters(filtered, cluster_distance())) {
+        None => "panic".to_string(),
+        Some(cl) => {
+            let ids: Vec<String> = cl.iter().flat_map(|(ts, _)| ts.iter().map(|t| tid(&c, t))).collect();
+            join(&ids, ",")
+        }
+    };
+    let z: Vec<Length> = c.reps.iter().map(beam_z).collect();
+    let rows: Vec<Vec<usize>> = (0..z.len())
+        .map(|i| (0..z.len()).filter(|&j| (z[i] - z[j]).abs() < cluster_distance()).collect())
+        .collect();
+    let rb: Vec<String> = c.reps.iter().map(|t| format!("{:016x}", t.verif_params()[3].to_bits())).collect();
+    format!(
+        "c15v {} {} {} {} {} {}",
+        tclasses_str(&c.reps),
+        join(&c.ids, ","),
+        join(&flags, ","),
+        sorted,
+        near_str(&rows),
+        join(&rb, ",")
+    )
+}
+/// beamline_clusters alone (hook), on arbitrary track lists: clusters as class-id lists in order
+fn observe_beamline(tracks: &[Track]) -> String {
+    let c = tclassify(tracks);
+    let v = tracks.to_vec();
+    match catch(move || rec::verif_beamline_clusters(v, cluster_distance())) {
+        None => "panic".to_string(),
+        Some(cl) => {
+            let v: Vec<String> = cl
+                .iter()
+                .map(|(ts, _)| join(&ts.iter().map(|t| tid(&c, t)).collect::<Vec<_>>(), ","))
+                .collect();
+            format!("ok {}", join(&v, "/"))
+        }
+    }
+}
+fn beamline_case_line(tracks: &[Track]) -> String {
+    let c = tclassify(tracks);
+    let obs = observe_beamline(tracks);
+    let sorted = match obs.strip_prefix("ok ") {
+        None => "panic".to_string(),
+        Some(cl) => cl.replace('/', ","),
+    };
+    let z: Vec<Length> = c.reps.iter().map(beam_z).collect();
+    let rows: Vec<Vec<usize>> = (0..z.len())
+        .map(|i| (0..z.len()).filter(|&j| (z[i] - z[j]).abs() < cluster_distance()).collect())
+        .collect();
+    format!("c15bc {} {} {} {}", tclasses_str(&c.reps), join(&c.ids, ","), sorted, near_str(&rows))
+}
+fn rel_vertex(tracks: &[Track]) -> String {
+    let c = tclassify(tracks);
+    for t in tracks {
+        if t != t {
+            return "fails eq-not-reflexive".to_string();
+        }
+    }
+    let v = tracks.to_vec();
+    let res = match catch(move || find_vertices(v)) {
+        None => return "fails panic".to_string(),
+        Some(r) => r,
+    };
+    let mut count = vec![0i64; c.reps.len()];
+    for &i in &c.ids {
+        count[i] += 1;
+    }
+    let mut out: Vec<Track> = res.remainder.clone();
+    for vi in res.primary.iter().chain(res.secondaries.iter()) {
+        out.extend(vi.tracks.iter().map(|(t, _)| *t));
+    }
+    for t in out {
+        match c.reps.iter().position(|q| *q == t) {
+            Some(i) => count[i] -= 1,
+            None => return "fails foreign-track".to_string(),
+        }
+    }
+    if let Some(i) = count.iter().position(|&x| x != 0) {
+        return format!("fails conservation class {i} balance {}", count[i]);
+    }
+    if let Some(vi) = &res.primary {
+        if vi.tracks.len() < 2 {
+            return format!("fails primary with {} tracks", vi.tracks.len());
+        }
+    }
+    "holds".to_string()
+}
+
+fn gen_tracks(r: &mut Rng) -> (&'static str, Vec<Track>) {
+    let n = r.range(0, 8) as usize;
+    let nv = r.range(1, 3) as usize;
+    let mut zv: Vec<f64> = vec![uni_in(r, -0.5, 0.5)];
+    for k in 1..nv {
+        // further vertices: far away, or exactly around the 3.4 cm chaining distance
+        let step = r.pick(&[0.5, 0.1, 0.034, 0.0339, 0.0341, 0.068]);
+        zv.push(zv[k - 1] + step);
+    }
+    let radii = [0.25, 0.5, 1.0, 0.75];
+    let mut out: Vec<Track> = Vec::new();
+    let mut label = "tracks";
+    for _ in 0..n {
+        if !out.is_empty() && r.chance(1, 6) {
+            // identical track
+            let t = out[r.below(out.len() as u64) as usize];
+            out.push(t);
+            continue;
+        }
+        let big_r = if r.chance(2, 3) { r.pick(&radii) } else { uni_in(r, 0.1, 3.0) };
+        let d = match r.below(8) {
+            0 => 0.0529,
+            1 => 0.0531,
+            2 => -0.0529,
+            3 => -0.0531,
+            4 => 0.2,
+            5 => 0.0,
+            _ => uni_in(r, -0.05, 0.05),
+        };
+        let a = uni_in(r, -PI, PI);
+        let (x0, y0) = ((big_r + d) * a.cos(), (big_r + d) * a.sin());
+        let phi0 = uni_in(r, -PI, PI);
+        let mut h = if r.chance(1, 2) { 0.0 } else { uni_in(r, -1.0, 1.0) };
+        if h == 0.0 && r.chance(1, 8) {
+            h = -0.0;
+        }
+        let dz = match r.below(8) {
+            0 => 0.0,
+            1 => 0.01,
+            2 => -0.01,
+            3 => 0.0339,
+            4 => 0.0341,
+            5 => -0.034,
+            _ => uni_in(r, -0.05, 0.05),
+        };
+        let zt = r.pick(&zv) + dz;
+        // t at the closest approach to the beamline (as Helix::closest_to_beamline computes it)
+        let (cx, cy) = (big_r * phi0.cos(), big_r * phi0.sin());
+        let tc = (cx * (-y0) - cy * (-x0)).atan2(cx * (-x0) + cy * (-y0));
+        let z0 = zt - h / (2.0 * PI) * tc;
+        let t_in = uni_in(r, -1.0, 1.0);
+        let dt = match r.below(6) {
+            0 => 0.0,
+            1 => 0.035 / big_r * (1.0 - 1e-3),
+            2 => 0.035 / big_r * (1.0 + 1e-3),
+            _ => uni_in(r, 0.05, 1.5),
+        } * if r.chance(1, 2) { 1.0 } else { -1.0 };
+        out.push(Track::verif_from_params([x0, y0, z0, big_r, phi0, h], t_in, t_in + dt));
+    }
+    if !out.is_empty() && r.chance(1, 25) {
+        // a helix whose phase is not a number passes both filters and has no z at the beamline
+        label = "tracks-nan-phi0";
+        let k = r.below(out.len() as u64) as usize;
+        let p = out[k].verif_params();
+        out[k] = Track::verif_from_params([p[0], p[1], p[2], p[3], f64::NAN, p[5]], out[k].t_inner(), out[k].t_outer());
+    }
+    if r.chance(1, 3) {
+        for i in (1..out.len()).rev() {
+            let j = r.below(i as u64 + 1) as usize;
+            out.swap(i, j);
+        }
+    }
+    (label, out)
+}
+
+fn emit_vertex(s: &mut Sink, label: &str, tracks: &[Track]) {
+    let obs = observe_vertex(tracks);
+    let nontrivial = obs.starts_with("ok") && !obs.starts_with("ok none");
+    let line = vertex_case_line(tracks);
+    s.put(&line, &obs, label, nontrivial);
+    s.put(&beamline_case_line(tracks), &observe_beamline(tracks), &format!("beamline-{label}"), tracks.len() > 1);
+    if tracks.iter().all(|t| t == t) {
+        let c = tclassify(tracks);
+        s.put(
+            &format!("relc15v {} {}", tclasses_str(&c.reps), join(&c.ids, ",")),
+            &rel_vertex(tracks),
+            &format!("rel-{label}"),
+            nontrivial,
+        );
+    }
+}
+
+// ---------------------------------------------------------------- generators
+fn uni(r: &mut Rng) -> f64 {
+    (r.next() >> 11) as f64 / (1u64 << 53) as f64
+}
+fn uni_in(r: &mut Rng, lo: f64, hi: f64) -> f64 {
+    lo + (hi - lo) * uni(r)
+}
+/// detector granularity: 256 wires in phi, 4 mm pads in z, 0.5 mm in r (gives exact ties and duplicates)
+fn quantize(p: (f64, f64, f64)) -> (f64, f64, f64) {
+    let pitch = 2.0 * PI / 256.0;
+    (
+        (p.0 / 0.0005).round() * 0.0005,
+        ((p.1 / pitch).floor() + 0.5) * pitch,
+        ((p.2 / 0.004).floor() + 0.5) * 0.004,
+    )
+}
+fn random_point(r: &mut Rng, wide: bool) -> (f64, f64, f64) {
+    let (lo, hi) = if wide { (0.03, 0.3) } else { (R_IN, R_OUT) };
+    (uni_in(r, lo, hi), uni_in(r, -PI, PI), uni_in(r, -Z_HALF, Z_HALF))
+}
+/// n points of a track whose x-y projection is a circle through (near) the origin
+fn track_points(r: &mut Rng, n: usize, gap: bool) -> Vec<(f64, f64, f64)> {
+    let big_r = if r.chance(1, 4) { uni_in(r, 0.095, 0.3) } else { uni_in(r, 0.3, 5.0) };
+    let a = uni_in(r, -PI, PI);
+    let sign = if r.chance(1, 2) { 1.0 } else { -1.0 };
+    let (cx, cy) = (big_r * a.cos(), big_r * a.sin());
+    // small offset of the circle from the origin (tracks originate close to it, not on it)
+    let (ox, oy) = if r.chance(1, 2) { (0.0, 0.0) } else { (uni_in(r, -0.01, 0.01), uni_in(r, -0.01, 0.01)) };
+    let z0 = uni_in(r, -0.9, 0.9);
+    let slope = uni_in(r, -2.0, 2.0);
+    let jitter = if r.chance(1, 2) { 0.0 } else { uni_in(r, 0.0, 0.002) };
+    let (glo, ghi) = if gap { (uni_in(r, 0.12, 0.14), uni_in(r, 0.15, 0.17)) } else { (1.0, 0.0) };
+    let mut out = Vec::new();
+    for k in 0..n {
+        let rr = R_IN + 0.001 + (R_OUT - R_IN - 0.002) * (k as f64 + uni(r)) / n as f64;
+        if rr > glo && rr < ghi {
+            continue;
+        }
+        let s = (rr / (2.0 * big_r)).min(1.0);
+        let delta = 2.0 * s.asin() * sign;
+        let ang = a + PI + delta;
+        let x = cx + big_r * ang.cos() + ox + uni_in(r, -jitter, jitter);
+        let y = cy + big_r * ang.sin() + oy + uni_in(r, -jitter, jitter);
+        let z = z0 + slope * rr + uni_in(r, -jitter, jitter);
+        out.push((x.hypot(y), y.atan2(x), z));
+    }
+    out
+}
+
+struct Cloud {
+    label: &'static str,
+    pts: Vec<SpacePoint>,
+}
+
+fn gen_cloud(r: &mut Rng, max_n: usize) -> Cloud {
+    let kind = r.below(10);
+    let quant = r.chance(1, 2);
+    let mut raw: Vec<(f64, f64, f64)> = Vec::new();
+    let label;
+    match kind {
+        0 => {
+            // uniform cloud in the drift volume (sometimes beyond it)
+            label = "random-cloud";
+            let n = r.boundary(max_n as u64) as usize;
+            let wide = r.chance(1, 5);
+            for _ in 0..n {
+                raw.push(random_point(r, wide));
+            }
+        }
+        1 => {
+            // dense blob: many points within a few cm, rich 3 cm neighbourhoods
+            label = "dense-blob";
+            let n = r.range(0, (max_n as u64).min(150)) as usize;
+            let c = random_point(r, false);
+            let w = uni_in(r, 0.005, 0.08);
+            for _ in 0..n {
+                raw.push((
+                    (c.0 + uni_in(r, -w, w)).max(0.02),
+                    c.1 + uni_in(r, -w, w) / c.0,
+                    c.2 + uni_in(r, -w, w),
+                ));
+            }
+        }
+        2 => {
+            // one track with a number of points around the minimum of 13
+            label = "track-near-13";
+            let n = r.pick(&[11usize, 12, 13, 14, 15, 16, 26, 27]);
+            raw.extend(track_points(r, n, false));
+            for _ in 0..r.below(6) {
+                raw.push(random_point(r, false));
+            }
+        }
+        _ => {
+            // 1-4 tracks + noise
+            let nt = r.range(1, 4) as usize;
+            let budget = r.range(20, max_n as u64) as usize;
+            let back_to_back = r.chance(1, 4);
+            let same_xy = r.chance(1, 5);
+            label = if back_to_back {
+                "tracks-back-to-back"
+            } else if same_xy {
+                "tracks-same-xy"
+            } else {
+                "tracks-noise"
+            };
+            // at most 150 points per track (a physical track has a few dozen): the remaining budget is noise
+            let per = (budget * 3 / 4 / nt).max(5).min(150);
+            for t in 0..nt {
+                let n = if r.chance(1, 4) { r.range(5, per as u64) } else { r.range((per as u64 / 2).max(5), per as u64) } as usize;
+                let gap = r.chance(1, 5);
+                let pts = track_points(r, n, gap);
+                if t == 0 && back_to_back {
+                    // the same circle continued on the other side of the origin
+                    raw.extend(pts.iter().map(|&(rr, ph, z)| (rr, ph + PI, -z)));
+                }
+                if t == 0 && same_xy {
+                    let dz = uni_in(r, 0.02, 0.3);
+                    raw.extend(pts.iter().map(|&(rr, ph, z)| (rr, ph, z + dz)));
+                }
+                raw.extend(pts);
+            }
+            let noise = r.below((budget.saturating_sub(raw.len()).max(budget / 4) + 1) as u64) as usize;
+            for _ in 0..noise {
+                raw.push(random_point(r, false));
+            }
+        }
+    }
+    if quant {
+        raw = raw.into_iter().map(quantize).collect();
+    }
+    // exact duplicates of points
+    if !raw.is_empty() && r.chance(1, 2) {
+        let nd = r.range(1, (raw.len() as u64 / 4).max(1)) as usize;
+        for _ in 0..nd {
+            let p = raw[r.below(raw.len() as u64) as usize];
+            let copies = r.range(1, 3);
+            for _ in 0..copies {
+                raw.push(p);
+            }
+        }
+    }
+    // signed zeros: `==`-equal points with different bit patterns
+    if !raw.is_empty() && r.chance(1, 16) {
+        let z = raw[0];
+        raw.push((z.0, 0.0, z.2));
+        raw.push((z.0, -0.0, z.2));
+        raw.push((z.0, 0.0, 0.0));
+        raw.push((z.0, -0.0, -0.0));
+    }
+    // input order
+    match r.below(3) {
+        0 => {}
+        1 => {
+            for i in (1..raw.len()).rev() {
+                let j = r.below(i as u64 + 1) as usize;
+                raw.swap(i, j);
+            }
+        }
+        _ => raw.sort_by(|a, b| a.2.partial_cmp(&b.2).unwrap()),
+    }
+    raw.truncate(max_n);
+    Cloud {
+        label,
+        pts: raw.into_iter().map(|(a, b, c)| sp_f(a, b, c)).collect(),
+    }
+}
+
+fn emit_cluster(s: &mut Sink, label: &str, pts: &[SpacePoint]) {
+    let c = classify(pts);
+    let tabs: Vec<String> = c.reps.iter().map(|&p| rle_bins(&hough_bins(p))).collect();
+    let rows = near_rows(&c.reps);
+    let cs = classes_str(&c.reps);
+    let ps = join(&c.ids, ",");
+    let obs = observe_cluster(pts);
+    let nontrivial = obs.starts_with("ok") && !obs.starts_with("ok - |");
+    s.put(
+        &format!("c15 {} {} {} {}", cs, ps, join(&tabs, ";"), near_str(&rows)),
+        &obs,
+        label,
+        nontrivial,
+    );
+    s.put(&format!("relc15 {} {}", cs, ps), &rel_cluster(pts), &format!("rel-{label}"), nontrivial);
+}
+fn emit_largest(s: &mut Sink, label: &str, pts: &[SpacePoint]) {
+    let c = classify(pts);
+    let rows = near_rows(&c.reps);
+    s.put(
+        &format!("c15lc {} {} {}", classes_str(&c.reps), join(&c.ids, ","), near_str(&rows)),
+        &observe_largest(pts),
+        label,
+        pts.len() > 1,
+    );
+}
+
+pub fn run(tier: &str, seed: u64, s: &mut Sink) {
+    let mut r = Rng::new(seed ^ 0xC15);
+    let thorough = tier == "thorough";
+    // fixed small cases first
+    emit_cluster(s, "empty", &[]);
+    emit_cluster(s, "single", &[sp_f(0.15, 0.3, 0.1)]);
+    let same: Vec<SpacePoint> = (0..20).map(|_| sp_f(0.15, 0.3, 0.1)).collect();
+    for n in [12usize, 13, 14, 20] {
+        emit_cluster(s, "identical-points", &same[..n]);
+    }
+    let n_clouds = if thorough { 3000 } else { 500 };
+    for k in 0..n_clouds {
+        let max_n = if thorough {
+            match k % 25 {
+                0 => 2000,
+                1..=4 => 800,
+                _ => 300,
+            }
+        } else {
+            match k % 10 {
+                0 => 300,
+                1..=3 => 120,
+                _ => 60,
+            }
+        };
+        let c = gen_cloud(&mut r, max_n);
+        emit_cluster(s, c.label, &c.pts);
+        // the flood fill alone on a (shuffled) part of the cloud
+        if !c.pts.is_empty() {
+            let m = r.range(1, c.pts.len().min(120) as u64) as usize;
+            let start = r.below((c.pts.len() - m + 1) as u64) as usize;
+            emit_largest(s, "largest-cluster-part", &c.pts[start..start + m]);
+        }
+    }
+    // flood fill on dense blobs (rich neighbourhood structure, ties in cluster sizes)
+    let n_lc = if thorough { 4000 } else { 600 };
+    for _ in 0..n_lc {
+        let n = r.boundary(40) as usize;
+        let w = uni_in(&mut r, 0.005, 0.06);
+        let quant = r.chance(1, 2);
+        let mut pts = Vec::new();
+        for _ in 0..n {
+            let mut p = (0.15 + uni_in(&mut r, -w, w), uni_in(&mut r, -w, w) / 0.15, uni_in(&mut r, -w, w));
+            if quant {
+                p = quantize(p);
+            }
+            pts.push(sp_f(p.0, p.1, p.2));
+            if r.chance(1, 8) {
+                pts.push(sp_f(p.0, p.1, p.2));
+            }
+        }
+        emit_largest(s, "largest-cluster-blob", &pts);
+    }
+    // vertexing
+    emit_vertex(s, "tracks-empty", &[]);
+    let n_v = if thorough { 20000 } else { 2500 };
+    for _ in 0..n_v {
+        let (label, t) = gen_tracks(&mut r);
+        emit_vertex(s, label, &t);
+    }
+}
 
 /// implementation observation for a case line of this module (None: not one of mine)
-pub fn observe_line(_line: &str) -> Option<String> {
-    None
+pub fn observe_line(line: &str) -> Option<String> {
+    let f: Vec<&str> = line.split(' ').collect();
+    match f[0] {
+        "c15" if f.len() == 5 => Some(match parse_points(f[1], f[2]) {
+            Some(p) => observe_cluster(&p),
+            None => "bad-case".to_string(),
+        }),
+        "c15lc" if f.len() == 4 => Some(match parse_points(f[1], f[2]) {
+            Some(p) => observe_largest(&p),
+            None => "bad-case".to_string(),
+        }),
+        "relc15" if f.len() == 3 => Some(match parse_points(f[1], f[2]) {
+            Some(p) => rel_cluster(&p),
+            None => "bad-case".to_string(),
+        }),
+        "c15v" if f.len() == 7 => Some(match parse_tracks(f[1], f[2]) {
+            Some(t) => observe_vertex(&t),
+            None => "bad-case".to_string(),
+        }),
+        "c15bc" if f.len() == 5 => Some(match parse_tracks(f[1], f[2]) {
+            Some(t) => observe_beamline(&t),
+            None => "bad-case".to_string(),
+        }),
+        "relc15v" if f.len() == 3 => Some(match parse_tracks(f[1], f[2]) {
+            Some(t) => rel_vertex(&t),
+            None => "bad-case".to_string(),
+        }),
+        _ => None,
+    }
 }
